@@ -44,12 +44,13 @@ def meshes(meshdir, cells_of):
     struct("many:hexa8x4x4", "hypercube", 3, 8, 4, 4, 1, "BlkX = {2} BlkY = {1, 2} BlkZ = {1} Shears = {0, 1, 3} Tiles = {3, 4} RankCounts = {64}", (1, 2), quick=False)
     struct("many:tetra3x2x2", "simplex", 3, 3, 2, 2, 24, "BlkX = {3, 4} BlkY = {1} BlkZ = {1} Shears = {0, 1, 7} Tiles = {1, 3} RankCounts = {96}", (1, 1), quick=False)
     pre("many:unit-square-quad^4", "hypercube", 2, "unit-square-quad.xml", 4, "BlkX = {1} BlkY = {1} BlkZ = {1} Shears = {0} Tiles = {1} RankCounts = {64, 51, 85}", (1, 2), quick=True)
-    pre("many:unit-cube-tetra^2", "simplex", 3, "unit-cube-tetra.xml", 2, "BlkX = {1} BlkY = {1} BlkZ = {1} Shears = {0} Tiles = {1} RankCounts = {96, 144}", (1, 1), quick=True)
+    pre("many:unit-cube-tetra^2", "simplex", 3, "unit-cube-tetra.xml", 2, "BlkX = {1} BlkY = {1} BlkZ = {1} Shears = {0} Tiles = {1} RankCounts = {96, 144}", (0, 1), quick=True)
     pre("many:unit_circle_tria_6^3", "simplex", 2, "unit_circle_tria_6.xml", 3, "BlkX = {1} BlkY = {1} BlkZ = {1} Shears = {0} Tiles = {1} RankCounts = {96, 64, 55}", (1, 2))
     pre("many:l-shape-quad^3", "hypercube", 2, "l-shape-quad.xml", 3, "BlkX = {1} BlkY = {1} BlkZ = {1} Shears = {0} Tiles = {1} RankCounts = {48, 64, 37}", (1, 2))
     pre("many:unit-cube-hexa^3", "hypercube", 3, "unit-cube-hexa.xml", 3, "BlkX = {1} BlkY = {1} BlkZ = {1} Shears = {0} Tiles = {1} RankCounts = {128, 100}", (1, 1))
     pre("many:flowbench_c3d_03_hexa_256", "hypercube", 3, "flowbench_c3d_03_hexa_256.xml", 0, "BlkX = {1} BlkY = {1} BlkZ = {1} Shears = {0} Tiles = {1} RankCounts = {64, 85}", (1, 1))
-    pre("many:screws_2d_mesh_quad_360_1", "hypercube", 2, "screws_2d_mesh_quad_360_1.xml", 0, "BlkX = {1} BlkY = {1} BlkZ = {1} Shears = {0} Tiles = {1} RankCounts = {144, 180}", (1, 1))
+    pre("many:flowbench_c2d_01_quad_32^2", "hypercube", 2, "flowbench_c2d_01_quad_32.xml", 2, "BlkX = {1} BlkY = {1} BlkZ = {1} Shears = {0} Tiles = {1} RankCounts = {128, 100}", (1, 1))
+    pre("many:heat-v77-tria^2", "simplex", 2, "heat-v77-tria.xml", 2, "BlkX = {1} BlkY = {1} BlkZ = {1} Shears = {0} Tiles = {1} RankCounts = {128, 100}", (1, 1))
     return S
 
 
@@ -68,7 +69,7 @@ def ranks_of(p):
 
 
 def select(m, printed, tier, rng):
-    """which of the enumerated configurations are run: thorough = up to 36 per mesh (all non-tile ones, tile patterns sampled),
+    """which of the enumerated configurations are run: thorough = up to 24 per structured mesh (16 block / run / random ones, 8 tile patterns), 8 per refined or file mesh,
     quick = three per quick mesh: one sheared/staircase block partition, one tile pattern, one of the others - all seeded"""
     small = [p for p in printed if 32 * p["maxpatch"] < p["ncells"]]
     byg = {}
@@ -79,9 +80,9 @@ def select(m, printed, tier, rng):
         tiles = byg.get("tile", [])
         rest = [p for p in printed if p["gen"]["g"] != "tile"]
         rng.shuffle(tiles); rng.shuffle(rest)
-        out = rest[:24] + tiles[:12]
+        out = rest[:16] + tiles[:8]
         if not byg.get("tile"):
-            out = rest[:12]
+            out = rest[:8]
     elif m["quick"]:
         sheared = [p for p in small if p["gen"]["g"] in ("shear", "stair") and (p["gen"].get("s1", 0) or p["gen"].get("s2", 0) or p["gen"]["g"] == "stair")]
         tiles = [p for p in small if p["gen"]["g"] == "tile"]
@@ -125,7 +126,7 @@ def judge(items, tag, max_procs=3, target_bytes=2500000, timeout=1800):
     verdicts, runs = {}, []
 
     def one(k):
-        return vlib.tlc("PartitionManyCheck", "PartitionManyCheck.cfg", env={"C12_BATCH": paths[k]}, timeout=timeout, xmx="4g",
+        return vlib.tlc("PartitionManyCheck", "PartitionManyCheck.cfg", env={"C12_BATCH": paths[k]}, timeout=timeout, xmx="3g",
                         tag="%s_%d" % (tag, k))
     try:
         with cf.ThreadPoolExecutor(max_workers=max_procs) as ex:
